@@ -877,7 +877,13 @@ def evaluate(term, data, eng):
             except NotApplicable:
                 return None
             except Exception as e:
-                return [("raised %s" % type(e).__name__, "%s: %s" % (type(e).__name__, str(e)[:400]))], True, "raised"
+                where = ""
+                if isinstance(e, AssertionError):
+                    tb = e.__traceback__
+                    while tb.tb_next is not None:
+                        tb = tb.tb_next
+                    where = " in %s" % tb.tb_frame.f_code.co_name
+                return [("raised %s%s" % (type(e).__name__, where), "%s: %s" % (type(e).__name__, str(e)[:400]))], True, "raised"
             if not ra.bag_equal(rows, expect):
                 problems.append(("wrong-rows", "ORM returned %s\nrelational meaning / Core translation: %s" % (_bag(rows), _bag(expect))))
             try:
@@ -964,6 +970,12 @@ def shards(tier, seed):
     return out
 
 
+GCPN_KIND = "raised AssertionError in _generate_columns_plus_names"
+GCPN_SIG = ("ORM select of two entities of one polymorphic hierarchy, the first selected from its polymorphic union / subquery and "
+            "the second reached through two joins: internal AssertionError in Select._generate_columns_plus_names "
+            "(hash(names[required_label_name]) == hash(c))")
+
+
 def run_shard(shard, tier, rec):
     U, part, parts = shard
     eng = engine_for(U)
@@ -992,6 +1004,11 @@ def run_shard(shard, tier, rec):
                     rec.count("violating_cases")
                     continue
                 rec._vsigs.add(("seen", kind, term))
+                if kind == GCPN_KIND:
+                    # one root cause, not reducible by the term minimiser: one canonical signature
+                    rec.violation(GCPN_SIG, msg + "\nfirst seen: %s on data set %r" % (term_str(term), dkey),
+                                  dict(term=_tj(term), data=data, dkey=repr(dkey)), kind=GCPN_SIG)
+                    continue
                 mt, (mk, md) = minimize(term, kind, data, eng, tier)
                 sig = "%s: %s" % (kind, term_str(mt))
                 rec.violation(sig, msg + "\nfirst seen: %s on data set %r; minimal term fails on data set %r" % (term_str(term), dkey, mk if mk is not None else dkey),
@@ -1125,4 +1142,4 @@ def replay(case):
     eng.dispose()
     if not res:
         return []
-    return [("%s: %s" % (k, term_str(term)), m) for k, m in res[0]]
+    return [(GCPN_SIG if k == GCPN_KIND else "%s: %s" % (k, term_str(term)), m) for k, m in res[0]]
